@@ -223,6 +223,11 @@ def run(ck, facts, tier):
     rule_labels(ck, facts)
     rule_name_spelling(ck, facts)
     rule_linebreak_uniform(ck, facts)
+    from ..rules import invented
+
+    invented.run(ck, facts, "C16.invented-names")
+    rule_lookahead_nesting(ck, facts)
+    rule_block_scope(ck, facts)
     # a comment must end where the comment ends, or adding / editing one changes the program (model of the tokenizer's
     # comment combinators, shared with C13)
     from . import c13
@@ -230,3 +235,97 @@ def run(ck, facts, tier):
     c13.rule_comment_lexer(ck, facts, tier)
     ck.not_decided("invariance under whitespace, line breaks and redundant parentheses (behaviour of the rest of the chumsky tokenizer and of the parser on concrete texts)")
     ck.not_decided("that adding an agreeing annotation never changes inference results")
+
+
+def rule_lookahead_nesting(ck, facts):
+    """`(x)` and `(x, y)` are told apart by scanning ahead for a comma at nesting depth 0"""
+    from ..cfg import reachable
+    from ..rules import cover
+
+    R = "C16.lookahead-nesting"
+    ck.rule(R, "a look-ahead scan of the CST parser that keeps a nesting depth and reacts to a comma at depth 0 counts every bracket pair of the token alphabet (all `*Begin` kinds open, all `*End` kinds close): a scan that only counts parentheses takes the comma inside `({a = 1, b = 2})` or `([1, 2])` for its own, so redundant parentheses around a record / array / multi-parameter lambda turn the expression into a one-element tuple")
+    lang = facts.crate(roles.LANG)
+    adt = facts.adt(TOKENKIND)
+    opens = {v["n"] for v in adt["variants"] if v["n"].endswith("Begin")}
+    closes = {v["n"] for v in adt["variants"] if v["n"].endswith("End") and not v["n"].endswith("BeginEnd")}
+    n = 0
+    for f in lang.fns:
+        if "::parser::cst_parser::" not in f.path or f.kind == "promoted":
+            continue
+        cov = cover.coverage(facts, f, TOKENKIND)
+        if not cov or cov.primary is None or "Comma" not in cov.primary_handled():
+            continue
+        if any((callee(t) or "").split("::")[-1] in ("bump", "expect", "emit_node") for _, t in f.calls()):
+            continue  # a parsing function, not a pure look-ahead
+        inc, dec = set(), set()
+        for v in cov.primary_handled():
+            tb = cov.arm_target(v)
+            if tb is None:
+                continue
+            region = reachable(f, tb, stop=[cov.primary.block])
+            for b in region:
+                for st in f.stmts(b):
+                    if st[KIND] == "a" and st[5][0] == "bin" and st[5][1] in ("add", "add_ov", "sub", "sub_ov") and st[5][3][0] == "c":
+                        (inc if st[5][1].startswith("add") else dec).add(v)
+        # the increments of a depth counter are the arms of bracket kinds; other arithmetic (the loop index) sits
+        # outside the arms
+        inc &= opens | closes
+        dec &= opens | closes
+        if not inc and not dec:
+            continue
+        n += 1
+        key = "depth|%s" % f.short.split("::", 3)[-1]
+        missing = sorted((opens - inc) | (closes - dec))
+        if not missing:
+            ck.ok(R, key, {"opens": sorted(inc), "closes": sorted(dec)})
+        else:
+            ck.bad(R, key, "%s scans ahead for a comma at depth 0 but its depth only follows %s: %s are not counted, so a comma inside such brackets is taken for a separator of the enclosing parenthesis — `({a = 1.0, b = 2.0})` and `(|x, y| x + y)` become one-element tuples and the compiler panics on the field access / call" % (f.short, sorted(inc | dec), missing), f.where())
+    ck.floor(R, "comma_lookahead_scans", n, 2)
+
+
+def rule_block_scope(ck, facts):
+    """sibling cross-check of the two walks over Expr that keep a binding environment"""
+    from ..cfg import reachable
+    from ..rules import cover
+
+    R = "C16.block-scope"
+    ck.rule(R, "the type checker opens a scope for a block (`env.extend()` … `env.to_outer()` around the body of Expr::Block); the MIR generator keeps its own environment of value bindings, so its Block arm must also take back what the body bound (leave a scope, or truncate / pop the current one): otherwise a `let` inside `{ .. }` replaces an outer binding of the same name for the rest of the function, and renaming the inner binder changes the output")
+    lang = facts.crate(roles.LANG)
+    n = 0
+    for want, path_part, field in (("type checker", "::compiler::typing::", "InferContext::InferContext::env"), ("MIR generator", "::compiler::mirgen::Context", "Context::Context::valenv")):
+        best = None
+        for f in lang.fns:
+            if path_part not in f.path or f.kind == "promoted" or "::test" in f.path:
+                continue
+            cov = cover.coverage(facts, f, roles.EXPR)
+            if cov and cov.primary is not None and "Block" in cov.primary_handled() and len(cov.primary_handled()) >= 15:
+                if best is None or len(cov.primary_handled()) > len(best[1].primary_handled()):
+                    best = (f, cov)
+        ck.require(R, best is not None, "anchor|%s" % want.replace(" ", "-"), "the %s's walk over Expr (an arm for Block among >= 15 arms) was not found" % want)
+        if best is None:
+            continue
+        f, cov = best
+        tb = cov.arm_target("Block")
+        region = reachable(f, tb, stop=[cov.primary.block])
+        members = [(f, region)]
+        for b in region:
+            for st in f.stmts(b):
+                if st[KIND] == "a" and st[5][0] == "agg" and st[5][1][0] == "closure":
+                    g = facts.fn(st[5][1][1])
+                    if g is not None:
+                        members.append((g, None))
+        restores = []
+        for g, reg in members:
+            for b, t in g.calls():
+                if reg is not None and b not in reg:
+                    continue
+                nm = (callee(t) or "").split("::")[-1]
+                if nm in ("to_outer", "truncate", "pop_front", "pop", "pop_scope", "split_off", "clear"):
+                    restores.append(nm)
+        n += 1
+        key = "block|%s" % want.replace(" ", "-")
+        if restores:
+            ck.ok(R, key, {"walk": f.short, "restores_with": sorted(set(restores))})
+        else:
+            ck.bad(R, key, "%s (the %s's walk over Expr) evaluates the body of a block and never takes back the bindings the body added (no to_outer / truncate / pop in the Block arm): `let x = 1.0  let y = { let x = 2.0  x }  x + y` gives 4.0, and 3.0 once the inner binder is renamed" % (f.short, want), f.where(f.term(tb)))
+    ck.floor(R, "environment_walks", n, 2)
